@@ -261,6 +261,30 @@ impl ResumableSessions {
         let _ = self.records.push(record);
     }
 
+    /// Rotate the record a resumed handshake started from: if the record
+    /// carrying `old_resumption_id` is still cached for the peer of
+    /// `record`, replace it by `record` (see [`Self::insert_or_update`])
+    /// and return `true`.
+    ///
+    /// Returns `false` and leaves the cache alone if that record is gone.
+    /// A resumed handshake copies its record out of the cache and then
+    /// awaits the peer; every path that removes a fabric (RemoveFabric,
+    /// fail-safe rollback, factory reset) purges the fabric's records in
+    /// the meantime. Writing the rotated record back unconditionally would
+    /// re-create a record - with a resumption id the peer knows - for a
+    /// fabric index that is gone and may be handed out again.
+    pub fn rotate(&mut self, old_resumption_id: &[u8], record: ResumableSession) -> bool {
+        let cached = self
+            .find_by_resumption_id(old_resumption_id)
+            .is_some_and(|r| r.is_for_peer(record.fab_idx, record.peer_nodeid));
+
+        if cached {
+            self.insert_or_update(record);
+        }
+
+        cached
+    }
+
     /// Drop every record belonging to `fab_idx`. Call this from the
     /// fabric-removal path so removed-fabric peers cannot resume onto
     /// a fabric that no longer exists.
@@ -469,5 +493,43 @@ mod tests {
         assert!(cache
             .find_by_peer(NonZeroU8::new(2).unwrap(), 100)
             .is_some());
+    }
+
+    #[test]
+    fn rotate_only_while_the_old_record_is_cached() {
+        if MAX_RESUMPTION_RECORDS < 2 {
+            return;
+        }
+
+        let fab1 = NonZeroU8::new(1).unwrap();
+
+        let mut cache = ResumableSessions::new();
+        cache.insert_or_update(rec(1, 100, 0xA0));
+        cache.insert_or_update(rec(2, 100, 0xB0));
+
+        // The handshake copied the record out; it is still cached when the
+        // handshake ends: the id is rotated.
+        let old = rec(1, 100, 0xA0);
+        assert!(cache.rotate(old.resumption_id.access(), rec(1, 100, 0xA1)));
+        assert_eq!(cache.len(), 2);
+        assert!(cache
+            .find_by_resumption_id(old.resumption_id.access())
+            .is_none());
+        let rotated = rec(1, 100, 0xA1);
+        assert!(cache
+            .find_by_resumption_id(rotated.resumption_id.access())
+            .is_some());
+
+        // The fabric is removed while a handshake that started from the
+        // rotated record is in flight: nothing comes back.
+        cache.remove_for_fabric(fab1);
+        assert!(!cache.rotate(rotated.resumption_id.access(), rec(1, 100, 0xA2)));
+        assert_eq!(cache.len(), 1);
+        assert!(cache.find_by_peer(fab1, 100).is_none());
+
+        // The id of a record of another peer does not license a rotation.
+        let other = rec(2, 100, 0xB0);
+        assert!(!cache.rotate(other.resumption_id.access(), rec(1, 100, 0xA3)));
+        assert!(cache.find_by_peer(fab1, 100).is_none());
     }
 }
